@@ -49,6 +49,27 @@ package hashing
 //@        H(defStream(old(target), old(dependencyHashes), keys(target.Fingerprint), vals(target.Fingerprint), config.Global.OS, config.Global.Arch)) + "_" +
 //@        H(encFilesArr(arr(sortseq(bagOf(old(target.Inputs)))), len(target.Inputs), pathJoin(config.Global.WorkspaceRoot, target.Label.Package))))
 
+// C01: the cache key of a target folds in the output hash of every target it depends on, directly or through an alias.
+// `dependencyHashes` is the slice handed to GetTargetChangeHash (whose contract says how the key is composed from it, C09).
+//@ func (*TargetHasher).SetTargetChangeHash(t, target) (err)
+//@   requires [graph] absEdges(t.graph) && endpointsAreNodes(t.graph)
+//@   modifies target.ChangeHash
+//@   reveal inTargets
+//@   ensures [already_set_kept] old(target.ChangeHash) != "" ==> err == nil && target.ChangeHash == old(target.ChangeHash)
+//@   ensures [key_composed_from_dependency_hashes] err == nil && old(target.ChangeHash) == "" ==> target.ChangeHash == ite(len(target.Inputs) == 0,
+//@        H(defStream(old(deref(target)), dependencyHashes, keys(target.Fingerprint), vals(target.Fingerprint), config.Global.OS, config.Global.Arch)),
+//@        H(defStream(old(deref(target)), dependencyHashes, keys(target.Fingerprint), vals(target.Fingerprint), config.Global.OS, config.Global.Arch)) + "_" +
+//@        H(encFilesArr(arr(sortseq(bagOf(old(target.Inputs)))), len(target.Inputs), pathJoin(config.Global.WorkspaceRoot, target.Label.Package))))
+//@   ensures [deps_folded] err == nil && old(target.ChangeHash) == "" ==> forall d model.BuildNode :: {edge(t.graph, d, tnode(target))} edge(t.graph, d, tnode(target)) && typeIs(d, "*model.Target") ==>
+//@        asPtr(d, "*model.Target").OutputHash != "" && inStrs(dependencyHashes, asPtr(d, "*model.Target").OutputHash)
+//@   ensures [deps_behind_aliases_folded] err == nil && old(target.ChangeHash) == "" ==> forall a model.BuildNode, d model.BuildNode :: {edge(t.graph, a, tnode(target)), edge(t.graph, d, a)}
+//@        edge(t.graph, a, tnode(target)) && !typeIs(a, "*model.Target") && edge(t.graph, d, a) && typeIs(d, "*model.Target") ==>
+//@        asPtr(d, "*model.Target").OutputHash != "" && inStrs(dependencyHashes, asPtr(d, "*model.Target").OutputHash)
+//@   ensures [failure_leaves_key_unset] err != nil ==> target.ChangeHash == old(target.ChangeHash)
+//@ loop #1
+//@   invariant [folded_so_far] forall j int :: {ranged()[j]} 0 <= j && j <= rangeindex && j < len(ranged()) ==> ranged()[j].OutputHash != "" && inStrs(dependencyHashes, ranged()[j].OutputHash)
+//@   invariant [key_still_unset] target.ChangeHash == ""
+
 // digest of one file's content (output handlers)
 //@ func HashFile(filePath) (h, err)
 //@   pure
